@@ -7,7 +7,7 @@ usage: impl_worker.py [--cfg i]      (i = 4*IGNORE_SPACE + 2*IGNORE_LINEBREAK + 
 import os, sys, types
 REPO = os.environ.get("MSQ_REPO", "/repo")
 sys.path.insert(0, REPO)
-sys.setrecursionlimit(10000)
+# the interpreter's default recursion limit is kept: C07 observes RecursionError at the stated nesting depth
 cfg_idx = None
 if "--cfg" in sys.argv:
     cfg_idx = int(sys.argv[sys.argv.index("--cfg") + 1])
